@@ -868,6 +868,15 @@ class RZILTransformer(Transformer):
         name = f"op_{HybridType(items[1]).name}"
         if t == HybridType.INC or t == HybridType.DEC:
             op: LocalVar = items[0]
+            if isinstance(op, Register) and op.get_isa_name()[0] == "P":
+                # The predicate is written.
+                dname = op.get_isa_name().upper()
+                self.ext.set_token_meta_data(
+                    "pred_write",
+                    pred_num=(
+                        op.get_pred_num() if dname[1] in ["0", "1", "2", "3"] else -1
+                    ),
+                )
             return self.resolve_hybrid(
                 self.add_op(PostfixIncDec(name, op, op.value_type, t))
             )
